@@ -133,6 +133,26 @@ def show_view(v):
             + "|sids=" + S.show_ids(v.sample_ids) + "|pids=" + S.show_ids(v.plate_ids))
 
 
+def derived_view_tok(v):
+    """derived properties of a real view, as the model's `vderived` prints them"""
+    try:
+        pid = str(int(v.plate_id)) if hasattr(v, "plate_id") else None
+    except Exception as e:      # noqa: BLE001
+        pid = S.err_tok(e)
+    if pid is None:             # plain ScreenSubset: no plate_id property; the model's value is checked on Plate objects only
+        ids = sorted(set(int(x) for x in v.plate_ids))
+        pid = str(ids[0]) if len(ids) == 1 else "err:ValueError"
+    try:
+        e_ = v.single_treatment_effects
+        ste = "none" if e_ is None else "arr"
+    except Exception as e:      # noqa: BLE001
+        ste = S.err_tok(e)
+    return ("ok size=%d|arity=%d|np=%d|up=%s|us=%s|ut=%s|nus=%d|nut=%d|obs=%s|sss=%d|tss=%d|pid=%s|ste=%s" % (
+        int(v.size), int(v.treatment_arity), int(v.n_plates), S.show_ids(v.unique_plate_ids), S.show_ids(v.unique_sample_ids),
+        S.show_ids(v.unique_treatments), int(v.n_unique_samples), int(v.n_unique_treatments), "1" if bool(v.is_observed) else "0",
+        int(v.sample_space_size), int(v.treatment_space_size), pid, ste))
+
+
 def rpn(tree):
     op = tree[0]
     if op in ("S", "F"):
@@ -801,6 +821,8 @@ def run(ctx, res):
             queue("vexpr " + S.lst(rpn(sub), "+") + " " + toks, out, case)
         if err is not None:
             queue("vexpr " + S.lst(rpn(tree), "+") + " " + toks, err, case)
+        elif v.screen is E.screen:
+            queue("vderived " + S.lst(rpn(tree), "+") + " " + toks, derived_view_tok(v), case)
         # to_screen of the root (and of one random inner node)
         if v is not None and v.screen is E.screen:
             picks = [(tree, v)]
